@@ -32,7 +32,10 @@ case "$cmd" in
   setup)
     T="$(mktemp -d)"; trap 'rm -rf "$T"' EXIT
     build "$T" base || exit 2
-    if [ -d "$MC/shim/vio" ]; then build "$T" sched || exit 2; fi
+    if [ -d "$MC/shim/vio" ]; then
+      build "$T" sched || exit 2
+      (cd "$MC" && CGO_ENABLED=1 go build -race -o "$T/c19race" ./cmd/c19race) 2>/dev/null || echo "note: -race build unavailable"
+    fi
     echo "setup ok"; exit 0 ;;
   build)
     build "$2" "${3:-base}"; exit $? ;;
@@ -46,6 +49,14 @@ MODE=base
 case "$ID" in C19) [ -d "$MC/shim/vio" ] && MODE=sched ;; esac
 build "$T" "$MODE" || exit 2
 export VERIF_CHECK_BIN="$T/check-$MODE"
+if [ "$ID" = C19 ]; then
+  # sub-check 3: free-running race-detector build of the same operations (plain build, no shim)
+  if (cd "$MC" && CGO_ENABLED=1 go build -race -o "$T/c19race" ./cmd/c19race) 2>"$T/race-build.log"; then
+    export VERIF_RACE_BIN="$T/c19race"
+  else
+    echo "note: -race build unavailable; C19 sub-check 3 skipped" >&2; head -5 "$T/race-build.log" >&2
+  fi
+fi
 case "$ACTION" in
   quick|thorough) "$T/check-$MODE" "$ID" --tier "$ACTION"; exit $? ;;
   replay) "$T/check-$MODE" "$ID" --replay "$3"; exit $? ;;
